@@ -7,9 +7,18 @@ from ..events import name_defs, single_def, data_events, fresh_paths
 from ..report import Ob
 
 
+_ALIAS_FUNC = [None]
+
+
 def _getattr_dispatch(call):
-    """(module name, suffix or '') for getattr(<mod>, <expr>[ + '_begin'])(...) calls."""
+    """(module name, suffix or '') for getattr(<mod>, <expr>[ + '_begin'])(...) calls; also when the looked-up
+    function was first bound to a local (writer = getattr(treeoutput, fmt); writer(tree, stream, ...))."""
     f = call.func
+    if isinstance(f, ast.Name) and _ALIAS_FUNC[0] is not None:
+        from ..core import _unique_assign
+        v = _unique_assign(_ALIAS_FUNC[0], f.id)
+        if isinstance(v, ast.Call) and isinstance(v.func, ast.Name) and v.func.id == 'getattr':
+            f = v
     if isinstance(f, ast.Call) and isinstance(f.func, ast.Name) and f.func.id == 'getattr' and len(f.args) == 2 \
             and isinstance(f.args[0], ast.Name):
         sel = f.args[1]
@@ -24,6 +33,11 @@ def _getattr_dispatch(call):
 def _starstar(call):
     for k in call.keywords:
         if k.arg is None:
+            if isinstance(k.value, ast.Name) and _ALIAS_FUNC[0] is not None:
+                from ..core import _unique_assign
+                v = _unique_assign(_ALIAS_FUNC[0], k.value.id)
+                if isinstance(v, ast.Call):
+                    return unparse(v)
             return unparse(k.value)
     return None
 
@@ -38,6 +52,7 @@ def _contains(outer_stmt, inner):
 def r_framefile(prog, tier):
     obs = []
     f = prog.func('transform', 'run')
+    _ALIAS_FUNC[0] = f
     cfg = f.cfg
     withs = [n for n in cfg.eval_nodes() if n.kind == 'with']
     regions = 0
@@ -214,6 +229,11 @@ def r_framefile(prog, tier):
                     if d and d[0] == 'treeoutput' and d[1] == '' and sub.args and isinstance(sub.args[0], ast.Name):
                         facts = [x[0] for x in facts_at(cfg, n.id)]
                         ok = ('none', sub.args[0].id, False) in facts
+                        if not ok:
+                            # for ... else: the else branch runs only when the loop was not left by `break`
+                            in_else = any(isinstance(x, ast.For) and any(n.ast is y or any(n.ast is z for z in ast.walk(y))
+                                                                         for y in x.orelse) for x in ast.walk(f.node))
+                            ok = None if in_else else False
                         obs.append(Ob('R-FRAMEFILE/ONCE', f.fq, 'a tree dropped by a filter is not written', ok,
                                       'writer call guarded by `%s is not None`' % sub.args[0].id if ok else
                                       'writer may receive None', construct='once-none', line=n.lineno))
@@ -558,15 +578,22 @@ def r_state(prog, tier):
         cfg = f.cfg
         kw = f.kwarg
         fresh_test = None
+        from ..core import _unique_assign
+        fname_alias = ["%s['terminalfile']" % kw] + [nm2 for nm2 in f.locals if isinstance(_unique_assign(f, nm2), ast.AST)
+                                                     and unparse(_unique_assign(f, nm2)) == "%s['terminalfile']" % kw]
         for n in cfg.eval_nodes():
             if n.kind == 'test' and not n.loops:
                 parts = [norm_test(e, p) for (e, p) in split_assumes(n.ast, False)]
                 want1 = ('opaque', "hasattr(%s, 'fn')" % nm, True)
-                want2 = ('cmp', "%s.fn" % nm, '==', "%s['terminalfile']" % kw)
-                want3 = ('cmp', "%s['terminalfile']" % kw, '==', "%s.fn" % nm)
-                if want1 in parts and (want2 in parts or want3 in parts) and len(parts) == 2:
+                cmpok = any(p_[0] == 'cmp' and p_[2] == '==' and set((p_[1], p_[3])) == set(("%s.fn" % nm, a_))
+                            for p_ in parts for a_ in fname_alias)
+                if want1 in parts and cmpok and len(parts) == 2:
                     fresh_test = n
         ok = fresh_test is not None and cfg.always_with(cfg.entry, fresh_test.id)
+        if not ok:
+            # positive evidence: the cached table is used although nothing compares the cached file name
+            compares = any('.fn' in unparse(n.ast) and n.kind == 'test' for n in cfg.eval_nodes())
+            ok = None if compares else False
         obs.append(Ob('R-STATE/G3', f.fq, 'the cached terminal file is reused only when the file name is unchanged', ok,
                       'reload unless hasattr(%s, \'fn\') and %s.fn == params[\'terminalfile\']' % (nm, nm) if ok else
                       'no unconditional freshness test `not hasattr(F, "fn") or F.fn != params["terminalfile"]`',
@@ -696,11 +723,39 @@ def _writer_purity(prog):
                 elif _restored(f, d, k) or _is_restore(f, d, k):
                     ok = True
                     why = '(iv) temporary: the original values are saved before and stored back after writing'
-                elif len(d.keys) > 1:
-                    # a loop over several fields storing a transformed value back
-                    ok = False
+                verdict = True if ok else False
+                if not ok:
+                    # the original values are kept somewhere (list / dict of the same field read before the store) and
+                    # the same field is stored again later: a save/restore in a shape this rule does not recognise
+                    saved = False
+                    for n2 in cfg.eval_nodes():
+                        if n2.kind in ('stmt',) and n2.id != d.node and d.node in cfg.reach(n2.id) \
+                                and not (n2.id in cfg.reach(d.node) and cfg.nodes[d.node].loops == n2.loops):
+                            txt = unparse(n2.ast)
+                            if ".data['%s']" % k in txt and (isinstance(n2.ast, ast.Assign) and not unparse(n2.ast.targets[0]).endswith(".data['%s']" % k)
+                                                            or '.append(' in txt):
+                                saved = True
+                    later = [d2 for d2 in data_events(prog, f) if d2.node != d.node and d2.kind == 'DATA' and d2.keys and k in d2.keys
+                             and (cfg.dominates(d.node, d2.node) or d.node in cfg.coreach(d2.node))]
+                    if saved and later:
+                        verdict = None
+                        why = 'the field is saved before and stored again after writing, in a shape this rule does not recognise'
+                    elif saved and isinstance(d.value, ast.AST):
+                        # the store itself reads from a container that was filled with the same field: a restore
+                        conts = set()
+                        for n2 in cfg.eval_nodes():
+                            if n2.kind == 'stmt' and ".data['%s']" % k in unparse(n2.ast):
+                                if isinstance(n2.ast, ast.Expr) and isinstance(n2.ast.value, ast.Call) \
+                                        and isinstance(n2.ast.value.func, ast.Attribute) and n2.ast.value.func.attr == 'append':
+                                    conts.add(unparse(n2.ast.value.func.value))
+                                elif isinstance(n2.ast, ast.Assign) and isinstance(n2.ast.targets[0], ast.Name):
+                                    conts.add(n2.ast.targets[0].id)
+                        rd = d.value.value if isinstance(d.value, ast.Subscript) else d.value
+                        if isinstance(rd, ast.Name) and rd.id in conts:
+                            verdict = True
+                            why = '(iv) restores the value saved in `%s` before writing' % rd.id
                 obs.append(Ob('R-STATE/G6', f.fq, 'store `%s` keeps the tree\'s content as the writer found it'
-                              % unparse(d.ast)[:70], ok, why, construct='g6:%s:%s' % (k, unparse(d.ast)[:70]),
+                              % unparse(d.ast)[:70], verdict, why, construct='g6:%s:%s' % (k, unparse(d.ast)[:70]),
                               line=cfg.nodes[d.node].lineno))
         # replace_chars is only ever called with the documented bracket table
         for n in walk_own(f.node):
